@@ -183,7 +183,7 @@ def main(tier):
     streams.sort(key=lambda l: (-len(l), l))
     nstreams = 60 if tier == 'quick' else 200
     streams = streams[:: max(1, len(streams) // nstreams)][:nstreams]
-    if len(streams) < 10:
+    if len(streams) < 10 and not run.violations and not run.capped:
         raise common.HarnessError('vacuous: corpus has only %d streams' % len(streams))
     counts['corpus_streams'] = len(streams)
 
